@@ -230,3 +230,80 @@ def defaults_changed(before, after):
       if now != r:
         out.append((cname, path, r, now))
   return out
+
+
+# -- per-node partial tolerance (C03) --------------------------------------------
+
+def edge_constrains(container, key):
+  """True when the declared spec of location `key` of `container` constrains the
+  completeness of a symbolic value stored there (Object/Dict/List/Tuple specs).
+  Any, Union and undeclared/schema-less locations accept a partial value as is."""
+  try:
+    field = container.sym_attr_field(key)
+  except Exception:  # pylint: disable=broad-except
+    field = None
+  if field is None:
+    return False
+  return isinstance(field.value, (T.Object, T.Dict, T.List, T.Tuple))
+
+
+def reached_unconstrained(root, keys):
+  """True when the path root -> keys crosses a location that does not constrain
+  completeness (a partial value may legitimately live below it)."""
+  n = root
+  for k in keys:
+    if not isinstance(n, pg.Symbolic) or isinstance(n, pg.Ref):
+      return True
+    if not edge_constrains(n, k):
+      return True
+    try:
+      n = n.sym_getattr(k)
+    except Exception:  # pylint: disable=broad-except
+      return True
+  return False
+
+
+def schema_ok_nodes(forest, counters=None, tolerate=None):
+  """schema_ok with a per-node tolerance: tolerate(ridx, keys, node) -> bool says
+  whether `node` was explicitly made partial (beyond its allow_partial flags)."""
+  problems = []
+  for ridx, keys, node in typed_nodes(forest):
+    if counters is not None:
+      counters['schema_ok_nodes'] += 1
+    tol = bool(tolerate(ridx, keys, node)) if tolerate is not None else False
+    where = f'root{ridx}{keys}<{type(node).__name__}>'
+    schema, lspec = schema_of(node)
+    items = list(node.sym_items())
+    if lspec is not None:
+      n = len(items)
+      lo = lspec.min_size or 0
+      hi = lspec.max_size
+      if n < lo or (hi is not None and n > hi):
+        problems.append(('size-bounds', f'{where}: length {n} outside [{lo}, {hi}]'))
+      for k, v in items:
+        if counters is not None:
+          counters['schema_ok_members'] += 1
+        check_member(node, k, v, lspec.element, problems, where, tol)
+      continue
+    if schema is None:
+      continue
+    present = set()
+    for k, v in items:
+      if counters is not None:
+        counters['schema_ok_members'] += 1
+      present.add(k)
+      field = None
+      try:
+        field = schema.get_field(k)     # independent of the truthiness of `schema`
+      except Exception:  # pylint: disable=broad-except
+        field = node.sym_attr_field(k)
+      if field is None:
+        problems.append(('undeclared-key', f'{where}: key {k!r} is not declared'))
+        continue
+      check_member(node, k, v, field, problems, where, tol)
+    for kspec, field in schema.fields.items():
+      if isinstance(kspec, T.ConstStrKey) and str(kspec) not in present:
+        if not (tol or effective_partial(node)) and not field.value.has_default:
+          problems.append(('missing-required',
+                           f'{where}: required key {str(kspec)!r} is absent'))
+  return problems
